@@ -1,6 +1,7 @@
 //! vharness — drives the real versatiles code for the TLA+-based checks in /verif.
 //! It never judges: it executes cases and records observations as ndjson; TLC decides.
 mod c12;
+mod pmt;
 mod c13;
 mod c14;
 mod c15;
@@ -50,6 +51,7 @@ fn main() {
 		("replay", "CONVERT") => convert::replay(&args[3], &args[4], &args[5]),
 		("cli", "CONVERT") => convert::cli(&args[3], &args[4], &args[5], &args[6], args[7].parse().unwrap()),
 		("isolated", "CONTAINER") => container::isolated(&args[3], &args[4], &args[5], &args[6]),
+		("replay", "PMTILES") => pmt::replay(&args[3], &args[4]),
 		("replay", "CONTAINER") => container::replay(&args[3], &args[4], &args[5], &args[6]),
 		("record", "CONTAINER") => container::record(&args[3], &args[4], seed, thorough, &args[5]),
 		("replay", "C15") => c15::replay(&args[3], &args[4]),
